@@ -44,7 +44,53 @@ def units_for(pid):
     return out
 
 
+_VERUS_VERSION = None
+
+
+def verus_version():
+    global _VERUS_VERSION
+    if _VERUS_VERSION is None:
+        try:
+            _VERUS_VERSION = subprocess.run(['verus', '--version'], stdout=subprocess.PIPE, text=True).stdout.strip()
+        except Exception:
+            _VERUS_VERSION = 'unknown'
+    return _VERUS_VERSION
+
+
 def run_verus(path, extra=()):
+    """Run Verus on a generated unit.  The result is cached under build/cache keyed by the SHA-256 of
+    the generated text + arguments + Verus version: the text is re-extracted from /repo on every run,
+    so a cache hit means the very same verification problem was already decided (by another
+    property's check on the same working tree).  VERIF_NOCACHE=1 disables it."""
+    import hashlib
+    with open(path) as f:
+        text = f.read()
+    key = hashlib.sha256((text + '\0' + ' '.join(extra) + '\0' + verus_version()).encode()).hexdigest()
+    cdir = os.path.join(BUILD, 'cache')
+    cpath = os.path.join(cdir, key + '.json')
+    if os.environ.get('VERIF_NOCACHE') != '1' and os.path.exists(cpath):
+        try:
+            with open(cpath) as f:
+                r = json.load(f)
+            r['cache_hit'] = True
+            return r
+        except Exception:
+            pass
+    r = run_verus_uncached(path, extra)
+    r['cache_hit'] = False
+    r['ran_at'] = time.time()
+    try:
+        os.makedirs(cdir, exist_ok=True)
+        tmp = cpath + '.%d.tmp' % os.getpid()
+        with open(tmp, 'w') as f:
+            json.dump(r, f)
+        os.replace(tmp, cpath)
+    except Exception:
+        pass
+    return r
+
+
+def run_verus_uncached(path, extra=()):
     cmd = ['verus', path, '--triggers-mode', 'silent', '--output-json', '--time', '--error-format=json',
            '--num-threads', '16', '--multiple-errors', '6'] + (list(extra) if '--rlimit' in extra else ['--rlimit', '30'] + list(extra))
     t0 = time.time()
@@ -131,9 +177,20 @@ class UnitRun:
         g = Generator(REPO, benchmark=self.benchmark)
         for attempt in range(8):
             self.gen = g.generate(self.tpath, probe=self.probe, quarantine=set(self.quarantine))
-            out = os.path.join(BUILD, self.label.replace('+', '_') + '.rs')
-            with open(out, 'w') as f:
-                f.write(self.gen['text'])
+            import hashlib
+            h8 = hashlib.sha256(self.gen['text'].encode()).hexdigest()[:10]
+            out = os.path.join(BUILD, '%s-%s.rs' % (self.label.replace('+', '_'), h8))
+            if not os.path.exists(out):
+                tmp = out + '.%d.tmp' % os.getpid()
+                with open(tmp, 'w') as f:
+                    f.write(self.gen['text'])
+                os.replace(tmp, out)
+            try:
+                latest = os.path.join(BUILD, self.label.replace('+', '_') + '.rs')   # convenience copy for humans
+                with open(latest, 'w') as f:
+                    f.write(self.gen['text'])
+            except Exception:
+                pass
             self.path = out
             for (fn, msg) in self.gen['errors']:
                 self.quarantine.setdefault(fn, 'extractor: ' + msg)
